@@ -20,11 +20,11 @@ func singleReturn(fn *ssa.Function, idx int) (ssa.Value, *ssa.Return) {
 	n := 0
 	for _, b := range fn.Blocks {
 		if r, ok := b.Instrs[len(b.Instrs)-1].(*ssa.Return); ok && idx < len(r.Results) {
-			if isNilConst(r.Results[idx]) {
+			if isNilConst(unspill(r.Results[idx])) {
 				continue
 			}
 			n++
-			out, ret = r.Results[idx], r
+			out, ret = unspill(r.Results[idx]), r
 		}
 	}
 	if n == 1 {
